@@ -212,6 +212,24 @@ class Tr:
             return f"(if {c} then {a} else {b})"
         if isinstance(s, ast.Assert):
             raise Untranslatable("assert")
+        if isinstance(s, ast.AnnAssign) and isinstance(s.target, ast.Name) and s.value is not None:
+            s = ast.Assign(targets=[s.target], value=s.value)
+        if isinstance(s, ast.Assign) and len(s.targets) == 1 and isinstance(s.targets[0], ast.Name):
+            # a local bound once to an effect-free expression of the operands (a tuple of attributes, a comparison): its uses are
+            # replaced by the expression
+            x = s.targets[0].id
+            if x in (self.self_name, self.other_name) or any(isinstance(n, ast.Call) and not (isinstance(n.func, ast.Name) and n.func.id == "isinstance") for n in ast.walk(s.value)):
+                raise Untranslatable(f"assignment {ast.unparse(s)[:60]}")
+            if any(isinstance(n, ast.Name) and n.id == x and isinstance(n.ctx, ast.Store) for st in rest for n in ast.walk(st)):
+                raise Untranslatable(f"local {x} is re-assigned")
+            import copy
+
+            class Sub(ast.NodeTransformer):
+                def visit_Name(self_, node):
+                    if isinstance(node.ctx, ast.Load) and node.id == x:
+                        return copy.deepcopy(s.value)
+                    return node
+            return self.block([Sub().visit(copy.deepcopy(st)) for st in rest])
         raise Untranslatable(f"statement {type(s).__name__}")
 
     def always_returns(self, stmts):
